@@ -145,6 +145,24 @@ func c02Do(c *core.C, idx int, race bool) {
 			os.WriteFile(filepath.Join(wsDir, p), []byte(ugly), 0o644)
 		}
 	}
+	// a third copy in which exactly one file does not parse: the per-file jobs of `buf format` then include one
+	// that fails while the others succeed (the failure, and only it, must be reported, every time)
+	ws3 := filepath.Join(base, "ws3")
+	{
+		files := s.WorkspaceFiles(v.R, gen.WorkspaceOpts{Version: "v2", Lint: lintCfg, Breaking: breakingCfg})
+		var protoPaths []string
+		for p := range files {
+			if strings.HasSuffix(p, ".proto") {
+				protoPaths = append(protoPaths, p)
+			}
+		}
+		sort.Strings(protoPaths)
+		if len(protoPaths) > 0 {
+			p := protoPaths[c.Rand.IntN(len(protoPaths))]
+			files[p] += "\nmessage Broken { string = 1; }\n"
+		}
+		run.WriteTree(ws3, files)
+	}
 	env := run.BufEnv(filepath.Join(c.Tmp, "home"), nil)
 	// some type names for --type
 	var types []string
@@ -212,6 +230,7 @@ func c02Do(c *core.C, idx int, race bool) {
 		{"breaking", []string{"breaking", "--against", wsDir, "--error-format=json"}, ws2},
 		{"format -d", []string{"format", "-d"}, wsDir},
 		{"format", []string{"format"}, wsDir},
+		{"format one-broken-file", []string{"format", "-d"}, ws3},
 		{"ls-files", []string{"ls-files"}, wsDir},
 		{"ls-files --include-imports", []string{"ls-files", "--include-imports", "--format", "json"}, wsDir},
 		{"dep graph", []string{"dep", "graph"}, wsDir},
@@ -226,7 +245,7 @@ func c02Do(c *core.C, idx int, race bool) {
 		var sel []c02Cmd
 		for _, cmd := range cmds {
 			switch cmd.name {
-			case "build binpb", "build --type", "build --type related", "lint json", "lint junit", "breaking", "format", "ls-files --include-imports", "dep graph json":
+			case "build binpb", "build --type", "build --type related", "lint json", "lint junit", "breaking", "format", "format one-broken-file", "ls-files --include-imports", "dep graph json":
 				sel = append(sel, cmd)
 			}
 		}
@@ -283,7 +302,7 @@ func c02Do(c *core.C, idx int, race bool) {
 			outputs[c02Hash(o.Stdout)+c02Hash(o.Stderr)] = true
 			if r == 0 {
 				baseline = o
-				if o.Code != 0 && o.Code != 100 {
+				if o.Code != 0 && o.Code != 100 && !(cmd.name == "format one-broken-file" && o.Code == 1) {
 					c.Violation("command-failed", fmt.Sprintf("case=%d cmd=%s", idx, cmd.name), fmt.Sprintf("exit %d: %s", o.Code, clip(o.Stderr)), nil)
 					break
 				}
@@ -475,8 +494,8 @@ func init() {
 	core.Register(&core.Check{
 		ID:    "C02",
 		Level: "exploration",
-		Rule: "per PRNG-generated workspace (3–5 modules incl. one whose packages form two import cycles sharing the first hop, lint plants, unformatted files, an edited copy for breaking): 21 commands " +
-			"(build binpb/json/txtpb/yaml, build --path, build --type (random and related: nested+enclosing, method+service), lint json/text/junit/github-actions, breaking junit, breaking, format, format -d, ls-files ±imports, dep graph dot/json, config ls-lint-rules/ls-breaking-rules) each executed 4 (quick) / 10 (thorough) times under GOMAXPROCS∈{1,2,4,16} × parallelism∈{1,2,3,16} × seeded yields at job dispatch × permuted flag order, " +
+		Rule: "per PRNG-generated workspace (3–5 modules incl. one whose packages form two import cycles sharing the first hop, lint plants, unformatted files, an edited copy for breaking): 22 commands " +
+			"(build binpb/json/txtpb/yaml, build --path, build --type (random and related: nested+enclosing, method+service), lint json/text/junit/github-actions, breaking junit, breaking, format, format -d, format of a tree with one unparsable file, ls-files ±imports, dep graph dot/json, config ls-lint-rules/ls-breaking-rules) each executed 4 (quick) / 10 (thorough) times under GOMAXPROCS∈{1,2,4,16} × parallelism∈{1,2,3,16} × seeded yields at job dispatch × permuted flag order, " +
 			"plus permuted modules/rule ids in buf.yaml and shuffled storage walk order at library level; repeated in the -race build. A (workspace, command) pair is counted non-trivial only if ≥2 distinct job-completion orders were actually observed through the thread hook trace",
 		Assumptions: []string{
 			"only the mtime stamps in the ---/+++ headers that diff(1) prints for `format -d` are masked; they are a function of wall-clock time, which the property does not quantify over",
